@@ -310,7 +310,14 @@ def script_history_checks(rep, tier, seed, rng):
                         kept.append((sc, k, prog["steps"][k - 1] if k else None))
                         sc = sc.copy()
                     elif op == "roundtrip":
-                        sc = rdscript_from_dict(json.loads(json.dumps(rdscript_to_dict(sc))))
+                        if rng.random() < 0.5:
+                            sc = rdscript_from_dict(json.loads(json.dumps(rdscript_to_dict(sc))))
+                        else:
+                            import os as _os
+                            from strengths import load_rdscript, save_rdscript
+                            path = _os.path.join(util.subdir("c09_files"), "script_%d.json" % _os.getpid())
+                            save_rdscript(sc, path)
+                            sc = load_rdscript(path)
                     else:
                         raise MachineryError("unknown operation in a generated script history: %r" % op)
                     got = observe(sc)
